@@ -45,6 +45,7 @@ type LoopSpec struct {
 	Unroll     int
 	Uses       []string // lemma instances at the loop header (after the invariant is assumed)
 	Unfolds    []string // unfoldings of recursive spec functions at the loop header
+	NoWrap     []SpecExpr // counters assumed not to wrap around (|e| < 2^62 at the loop header); reported as an assumption
 }
 
 type Split struct {
@@ -73,6 +74,7 @@ type SpecFunc struct {
 // WritersSpec: only the listed functions (and package initialisation) may write the field or
 // let its address escape:  //@ writers C13 Search.timeLimit: (*Search).run, (*Search).setupSearchLimits
 type WritersSpec struct {
+	Whole bool // only stores that replace the field as a whole count (stores into its components are covered by clauses of the component type)
 	Pkg    string
 	Props  []string
 	Type   string
@@ -121,6 +123,7 @@ type Contract struct {
 	PureCalls  map[string]bool // callees treated as uninterpreted functions of their arguments in this unit
 	Inlines    map[string]bool // callees executed by their bodies in this unit although they have a contract
 	DivAbstract bool
+	AssumeCalls bool // callee preconditions are assumed, not proved (control-flow accounting units)
 	NoSafety   bool // no implicit index/nil/div obligations in this unit (they are assumed to hold)
 	Scratch    []string // locations whose entry value must not influence the result (non-interference)
 	NoSplit    bool // do not split conjunctive goals into one obligation per conjunct
@@ -270,13 +273,13 @@ func (cs *ContractSet) parseFile(path string) {
 			cs.Specs[name] = sf
 			continue
 		case "writers":
-			wm := regexp.MustCompile(`^([\w,]+)\s+(\w+)\.(\w+)\s*:\s*(.*)$`).FindStringSubmatch(rest)
+			wm := regexp.MustCompile(`^([\w,]+)\s+(\w+)\.(\w+)(\s+whole)?\s*:\s*(.*)$`).FindStringSubmatch(rest)
 			if wm == nil {
 				cs.errf("%s: bad writers clause %q (syntax: writers C13 Type.field: f1, f2)", loc, rest)
 				continue
 			}
-			ws := WritersSpec{Pkg: pkg, Props: strings.Split(wm[1], ","), Type: wm[2], Field: wm[3], Line: loc}
-			for _, f := range strings.Split(wm[4], ",") {
+			ws := WritersSpec{Pkg: pkg, Props: strings.Split(wm[1], ","), Type: wm[2], Field: wm[3], Whole: wm[4] != "", Line: loc}
+			for _, f := range strings.Split(wm[5], ",") {
 				if f = strings.TrimSpace(f); f != "" {
 					ws.Funcs = append(ws.Funcs, f)
 				}
@@ -336,6 +339,8 @@ func (cs *ContractSet) parseFile(path string) {
 			loop().Invariants = append(loop().Invariants, mk(rest))
 		case "decreases":
 			loop().Decreases = append(loop().Decreases, mk(rest))
+		case "nowrap":
+			loop().NoWrap = append(loop().NoWrap, mk(rest))
 		case "unroll":
 			n, _ := strconv.Atoi(rest)
 			loop().Unroll = n
@@ -453,6 +458,8 @@ func (cs *ContractSet) parseFile(path string) {
 			cur.DivAbstract = true
 		case "nosafety":
 			cur.NoSafety = true
+		case "assumecalls":
+			cur.AssumeCalls = true
 		case "scratch":
 			for _, a := range splitTop(rest, ',') {
 				cur.Scratch = append(cur.Scratch, strings.TrimSpace(a))
